@@ -31,13 +31,21 @@ from typing import Any, Callable, Dict, List, Optional, Sequence, Tuple
 from fjverif import engines
 
 
+VAR_KINDS = ('bit', 'hex', 'bitaddr', 'hexbits', 'fieldaddr', 'hidden')
+POOL_OF_KIND = {'bit': 'bit', 'bitaddr': 'bit', 'hex': 'hex', 'hexbits': 'hex', 'fieldaddr': 'field', 'hidden': 'hidden'}
+
+
 @dataclass
 class Operand:
     name: str
     kind: str                   # 'n' | 'const' | 'bit' | 'hex' | 'label' | 'bitaddr' (address of a variable's data bit)
+    #                             | 'hexbits' (a hex variable passed as its four bit-addresses msb..lsb: 4 arguments)
+    #                             | 'fieldaddr' (bit-address of a `length`-bit field inside one word: `var+dbit`)
+    #                             | 'hidden' (library-internal state named by `target`; renders no argument)
     role: str = 'r'             # 'r' read-only, 'rw' read+written, 'w' written (old value irrelevant)
-    length: str = 'n'           # python expression over n: number of cells of the variable that the macro uses
-    values: Optional[Callable[[random.Random, int, int], int]] = None   # const: (rng, n, w) -> value
+    length: str = 'n'           # python expression over n (and the const operands): number of cells (field: bits) the macro uses
+    values: Optional[Callable[..., int]] = None   # const: (rng, n, w) -> value, or (rng, n, w, consts_drawn_so_far) -> value
+    target: Optional[str] = None   # 'hidden': name of the hidden Var this operand always denotes
 
 
 @dataclass
@@ -54,18 +62,22 @@ class Spec:
     widths: Sequence[int] = (16, 32, 64)
 
     def var_operands(self) -> List[Operand]:
-        return [o for o in self.operands if o.kind in ('bit', 'hex', 'bitaddr')]
+        return [o for o in self.operands if o.kind in VAR_KINDS]
 
 
 @dataclass
 class Var:
     name: str
-    kind: str       # 'bit' | 'hex'
+    kind: str       # 'bit' | 'hex' | 'field' (`length` BITS starting at dbit+bit_offset of ONE op's jump word)
     length: int
+    label: Optional[str] = None     # assembler label to find it at (default: its name)
+    bit_offset: int = 0             # 'field' only
+    hidden: bool = False            # library-internal state (e.g. the add carry): exists already, is not declared by the program;
+    #                                 a macro that does not name it as an operand promises nothing while it is nonzero
 
     @property
     def bits_per_cell(self) -> int:
-        return 1 if self.kind == 'bit' else 4
+        return 4 if self.kind == 'hex' else 1
 
     @property
     def modulus(self) -> int:
@@ -81,7 +93,7 @@ class App:
     labels: List[str] = field(default_factory=list)   # label operand names in order
 
     def used_cells(self, op: Operand) -> int:
-        return max(0, int(eval(op.length, {'n': self.n})))  # noqa: S307 - spec-author expressions over n only
+        return max(0, int(eval(op.length, {'n': self.n, **self.consts})))  # noqa: S307 - spec-author expressions over n/consts only
 
 
 class MonitorStop(Exception):
@@ -102,8 +114,12 @@ def render_program(apps: List[App], variables: List[Var], w: int, init: str) -> 
                 args.append(str(v) if v >= 0 else f'(0-{-v})')
             elif op.kind in ('bit', 'hex'):
                 args.append(app.binding[op.name])
-            elif op.kind == 'bitaddr':
+            elif op.kind in ('bitaddr', 'fieldaddr'):
                 args.append(f'{app.binding[op.name]} + dbit')
+            elif op.kind == 'hexbits':
+                args.extend(f'{app.binding[op.name]}+dbit+{b}' for b in (3, 2, 1, 0))
+            elif op.kind == 'hidden':
+                pass
             elif op.kind == 'label':
                 j = app.labels.index(op.name)
                 args.append(f's{k}_{j}')
@@ -115,7 +131,9 @@ def render_program(apps: List[App], variables: List[Var], w: int, init: str) -> 
     lines.append('    ;top')
     lines.extend(stubs)
     for var in variables:
-        lines.append(f'{var.name}: {var.kind}.vec {var.length}')
+        if var.hidden:
+            continue
+        lines.append(f'{var.name}: ;0' if var.kind == 'field' else f'{var.name}: {var.kind}.vec {var.length}')
     return '\n'.join(lines) + '\n'
 
 
@@ -144,7 +162,8 @@ class Monitor:
                  value_plan: Callable[[int, random.Random], Dict[str, int]], rng: random.Random):
         self.apps, self.variables, self.w, self.passes, self.value_plan, self.rng = apps, variables, w, passes, value_plan, rng
         self.vars_by_name = {v.name: v for v in variables}
-        self.addr = {v.name: labels[v.name] for v in variables}
+        self.addr = {v.name: labels[v.label or v.name] for v in variables}
+        self.field_rest: Dict[str, int] = {}   # 'field' vars: the other bits of the word, as first seen (must never change)
         self.state: Dict[str, int] = {}
         self.next_app = 0
         self.pass_index = -1
@@ -169,6 +188,13 @@ class Monitor:
         """(value, pristine): pristine = every cell's flip word is 0 and its jump word is exactly value*dw."""
         value, pristine = 0, True
         shift = self.w.bit_length()
+        if var.kind == 'field':
+            fw, jw = self.cell_words(var, 0)
+            flip, jump = memory.read_word(fw), memory.read_word(jw)
+            field_mask = ((1 << var.length) - 1) << (shift + var.bit_offset)
+            rest = self.field_rest.setdefault(var.name, jump & ~field_mask)
+            self.cells_compared += 1
+            return (jump & field_mask) >> (shift + var.bit_offset), flip == 0 and (jump & ~field_mask) == rest
         mask = (1 << var.bits_per_cell) - 1
         for i in range(var.length):
             fw, jw = self.cell_words(var, i)
@@ -182,6 +208,12 @@ class Monitor:
 
     def poke_var(self, memory: Any, var: Var, value: int) -> None:
         shift = self.w.bit_length()
+        if var.kind == 'field':
+            if var.name not in self.field_rest:
+                self.read_var(memory, var)
+            _, jw = self.cell_words(var, 0)
+            memory.write_word(jw, self.field_rest[var.name] | ((value & ((1 << var.length) - 1)) << (shift + var.bit_offset)))
+            return
         mask = (1 << var.bits_per_cell) - 1
         for i in range(var.length):
             _, jw = self.cell_words(var, i)
@@ -191,6 +223,10 @@ class Monitor:
     def apply_model(self, app: App) -> Optional[int]:
         """advance self.state by one application; returns the expected marker count (0 = fall through)."""
         v: Dict[str, int] = {}
+        bound = set(app.binding.values())
+        for var in self.variables:
+            if var.hidden and self.state[var.name] != 0 and var.name not in bound:
+                return None  # dirty library state that this macro's documentation does not mention: nothing is promised
         for op in app.spec.var_operands():
             var = self.vars_by_name[app.binding[op.name]]
             cells = app.used_cells(op)
@@ -256,7 +292,7 @@ class Monitor:
     def role_of(self, app: App, var_name: str) -> str:
         roles = [op.role for op in app.spec.var_operands() if app.binding[op.name] == var_name]
         if not roles:
-            return 'bystander'
+            return 'library-state' if self.vars_by_name[var_name].hidden else 'bystander'
         return 'destination' if any(r in ('rw', 'w') for r in roles) else 'source'
 
     def fail(self, app: App, what: str, detail: str) -> None:
@@ -319,19 +355,39 @@ def build_apps(rng: random.Random, specs: List[Spec], w: int, count: int, variab
     return apps
 
 
-def bind(rng: random.Random, spec: Spec, n: int, w: int, pool: Dict[str, List[Var]]) -> Optional[App]:
+def draw_consts(rng: random.Random, spec: Spec, n: int, w: int) -> Optional[Dict[str, int]]:
+    import inspect
     consts: Dict[str, int] = {}
     for op in spec.operands:
         if op.kind == 'const':
-            consts[op.name] = op.values(rng, n, w) if op.values else rng.randrange(0, 16)
+            if op.values is None:
+                consts[op.name] = rng.randrange(0, 16)
+            elif len(inspect.signature(op.values).parameters) >= 4:
+                consts[op.name] = op.values(rng, n, w, dict(consts))
+            else:
+                consts[op.name] = op.values(rng, n, w)
     if spec.pre is not None and not spec.pre(n, consts, w):
         return None
+    return consts
+
+
+def bind(rng: random.Random, spec: Spec, n: int, w: int, pool: Dict[str, List[Var]],
+         consts: Optional[Dict[str, int]] = None) -> Optional[App]:
+    if consts is None:
+        consts = draw_consts(rng, spec, n, w)
+        if consts is None:
+            return None
     app = App(spec, n, {}, consts, [op.name for op in spec.operands if op.kind == 'label'])
     taken: Dict[str, str] = {}
     for op in spec.var_operands():
-        kind = 'bit' if op.kind == 'bitaddr' else op.kind
+        kind = POOL_OF_KIND[op.kind]
         cells = app.used_cells(op)
-        candidates = [v for v in pool[kind] if v.length >= cells]
+        if kind == 'hidden':
+            if not any(v.name == op.target for v in pool.get('hidden', [])):
+                return None
+            taken[op.name] = str(op.target)
+            continue
+        candidates = [v for v in pool.get(kind, []) if v.length >= cells]
         if not candidates:
             return None
         allowed_alias = {a if b == op.name else b for a, b in spec.alias_ok if op.name in (a, b)}
